@@ -218,26 +218,6 @@ macro_rules! tri {
 
 pub(crate) use tri;
 
-struct DepthGuard<'a, R> {
-    de: &'a mut Deserializer<R>,
-}
-
-impl<'a, 'de, R: Reader<'de>> DepthGuard<'a, R> {
-    fn guard(de: &'a mut Deserializer<R>) -> Result<Self> {
-        de.remaining_depth -= 1;
-        if de.remaining_depth == 0 {
-            return Err(de.parser.error(RecursionLimitExceeded));
-        }
-        Ok(Self { de })
-    }
-}
-
-impl<'a, R> Drop for DepthGuard<'a, R> {
-    fn drop(&mut self) {
-        self.de.remaining_depth += 1;
-    }
-}
-
 /// Map an offset in `String::from_utf8_lossy(json)` back to the offset in `json`: every maximal
 /// invalid sequence has been replaced by the three bytes of U+FFFD.
 fn lossy_offset_to_origin(json: &[u8], mut n: usize) -> usize {
@@ -310,6 +290,17 @@ impl<'de, R: Reader<'de>> Deserializer<R> {
             Ok(value) => Ok(value),
             Err(err) => Err(self.parser.fix_position(err)),
         }
+    }
+
+    /// Account for one more level of nesting; the caller gives it back with
+    /// `remaining_depth += 1` when the nested value is done.
+    #[inline]
+    fn enter_nested(&mut self) -> Result<()> {
+        if self.remaining_depth <= 1 {
+            return Err(self.parser.error(RecursionLimitExceeded));
+        }
+        self.remaining_depth -= 1;
+        Ok(())
     }
 
     #[cold]
@@ -524,8 +515,10 @@ impl<'de, 'a, R: Reader<'de>> de::Deserializer<'de> for &'a mut Deserializer<R> 
             },
             b'[' => {
                 let ret = {
-                    let _ = DepthGuard::guard(self);
-                    visitor.visit_seq(SeqAccess::new(self))
+                    tri!(self.enter_nested());
+                    let ret = visitor.visit_seq(SeqAccess::new(self));
+                    self.remaining_depth += 1;
+                    ret
                 };
                 match (ret, self.end_seq()) {
                     (Ok(ret), Ok(())) => Ok(ret),
@@ -534,8 +527,10 @@ impl<'de, 'a, R: Reader<'de>> de::Deserializer<'de> for &'a mut Deserializer<R> 
             }
             b'{' => {
                 let ret = {
-                    let _ = DepthGuard::guard(self);
-                    visitor.visit_map(MapAccess::new(self))
+                    tri!(self.enter_nested());
+                    let ret = visitor.visit_map(MapAccess::new(self));
+                    self.remaining_depth += 1;
+                    ret
                 };
                 match (ret, self.end_map()) {
                     (Ok(ret), Ok(())) => Ok(ret),
@@ -808,8 +803,10 @@ impl<'de, 'a, R: Reader<'de>> de::Deserializer<'de> for &'a mut Deserializer<R> 
         let value = match peek {
             b'[' => {
                 let ret = {
-                    let _ = DepthGuard::guard(self);
-                    visitor.visit_seq(SeqAccess::new(self))
+                    tri!(self.enter_nested());
+                    let ret = visitor.visit_seq(SeqAccess::new(self));
+                    self.remaining_depth += 1;
+                    ret
                 };
                 match (ret, self.end_seq()) {
                     (Ok(ret), Ok(())) => Ok(ret),
@@ -854,8 +851,10 @@ impl<'de, 'a, R: Reader<'de>> de::Deserializer<'de> for &'a mut Deserializer<R> 
         let value = match peek {
             b'{' => {
                 let ret = {
-                    let _ = DepthGuard::guard(self);
-                    visitor.visit_map(MapAccess::new(self))
+                    tri!(self.enter_nested());
+                    let ret = visitor.visit_map(MapAccess::new(self));
+                    self.remaining_depth += 1;
+                    ret
                 };
                 match (ret, self.end_map()) {
                     (Ok(ret), Ok(())) => Ok(ret),
@@ -886,8 +885,10 @@ impl<'de, 'a, R: Reader<'de>> de::Deserializer<'de> for &'a mut Deserializer<R> 
         let value = match peek {
             b'[' => {
                 let ret = {
-                    let _ = DepthGuard::guard(self);
-                    visitor.visit_seq(SeqAccess::new(self))
+                    tri!(self.enter_nested());
+                    let ret = visitor.visit_seq(SeqAccess::new(self));
+                    self.remaining_depth += 1;
+                    ret
                 };
                 match (ret, self.end_seq()) {
                     (Ok(ret), Ok(())) => Ok(ret),
@@ -896,8 +897,10 @@ impl<'de, 'a, R: Reader<'de>> de::Deserializer<'de> for &'a mut Deserializer<R> 
             }
             b'{' => {
                 let ret = {
-                    let _ = DepthGuard::guard(self);
-                    visitor.visit_map(MapAccess::new(self))
+                    tri!(self.enter_nested());
+                    let ret = visitor.visit_map(MapAccess::new(self));
+                    self.remaining_depth += 1;
+                    ret
                 };
                 match (ret, self.end_map()) {
                     (Ok(ret), Ok(())) => Ok(ret),
@@ -929,8 +932,10 @@ impl<'de, 'a, R: Reader<'de>> de::Deserializer<'de> for &'a mut Deserializer<R> 
             Some(b'{') => {
                 self.parser.read.eat(1);
                 let value = {
-                    let _ = DepthGuard::guard(self);
-                    match visitor.visit_enum(VariantAccess::new(self)) {
+                    tri!(self.enter_nested());
+                    let ret = visitor.visit_enum(VariantAccess::new(self));
+                    self.remaining_depth += 1;
+                    match ret {
                         Ok(value) => value,
                         Err(err) => return Err(self.parser.fix_position(err)),
                     }
